@@ -188,6 +188,10 @@ def encode(chans, rng, version=2, ftype=TYPE_S16LH, blocksize=16, maxnlpc=0, nme
                     res.append(tv-pred); buf.append(tv)
                 mx=max((abs(r) for r in res),default=0)
                 resn=int(np.clip(mx.bit_length()-int(rng.integers(0,3)),0,20))
+                if rng.random()<0.06:
+                    # a residual width far too narrow for the block's largest residual (an isolated click in a quiet block):
+                    # valid, and the unary part of that code runs over one or more whole 32-bit words of zeros
+                    resn=int(np.clip(mx.bit_length()-int(rng.integers(6,10)),0,20)); stats['long_unary_runs']=stats.get('long_unary_runs',0)+1
                 bw.uvar(resn,3)
                 if cmd==FN_QLPC:
                     bw.uvar(nlpc,2)
